@@ -385,14 +385,36 @@ func sliceLoops(fn *ssa.Function) []sliceLoop {
 			continue
 		}
 		// rangeindex loops: t = phi or t+1; cond t < len(x)
+		if !strings.HasPrefix(b.Comment, "rangeindex.loop") && !strings.HasPrefix(b.Comment, "for.loop") {
+			continue
+		}
+		if _, isK := bo.Y.(*ssa.Const); isK && strings.HasPrefix(b.Comment, "rangeindex.loop") {
+			// range over an array: the bound is a constant; the ranged operand is what the body indexes with the loop index
+			var x ssa.Value
+			for bi := range loopBlocks(b) {
+				for _, in := range fn.Blocks[bi].Instrs {
+					switch ia := in.(type) {
+					case *ssa.IndexAddr:
+						if ia.Index == bo.X {
+							x = ia.X
+						}
+					case *ssa.Index:
+						if ia.Index == bo.X {
+							x = ia.X
+						}
+					}
+				}
+			}
+			if x != nil {
+				out = append(out, sliceLoop{X: x, Header: b, Body: b.Succs[0], Exit: b.Succs[1]})
+			}
+			continue
+		}
 		lenCall, ok := bo.Y.(*ssa.Call)
 		if !ok {
 			continue
 		}
 		if bi, ok := lenCall.Call.Value.(*ssa.Builtin); !ok || bi.Name() != "len" {
-			continue
-		}
-		if !strings.HasPrefix(b.Comment, "rangeindex.loop") && !strings.HasPrefix(b.Comment, "for.loop") {
 			continue
 		}
 		out = append(out, sliceLoop{X: lenCall.Call.Args[0], Header: b, Body: b.Succs[0], Exit: b.Succs[1]})
